@@ -251,6 +251,30 @@ def run(ctx):
                     why = why or None
                 r.check(why is not None, "%s/%s" % (tag, kind), b.loc(line), "%s %s: %s" % (kind, desc[:60], why), "potential panic (%s %s) in a notification handler, not in the allow-list" % (kind, desc[:80]))
 
+    with ctx.rule("C08.R1e", "T4", "the state of a client downlink is changed only by the notifications it receives", floor=2) as r:
+        # who-may-mutate: inside the IO loops only on_read (and what it calls) may touch the state; a command written by the
+        # local handle has not been seen by the lane yet and must not be folded into the state the callbacks report against
+        for nm in ("map", "value"):
+            b = [x for x in dl.all_bodies() if x.defpath.endswith("task::%s::run_io::{closure#0}" % nm)]
+            if len(b) != 1:
+                raise AnchorMissing("client %s run_io" % nm)
+            b = ctx.saw(b[0])
+            muts = []
+            for c in b.calls:
+                if c.name in ("insert", "remove", "clear", "retain", "replace", "extend", "append", "pop_first", "pop_last") and c.args:
+                    root = b.resolve(c.args[0][1]) if c.args[0][0] in ("c", "m") else None
+                    d = describe_operand(b, c.args[0])
+                    if d == "map" or "state" in d or (root is not None and b.root_name(root) == "state"):
+                        g = [l for dd, l, _ in dom_guards(b, c.block) if dd.startswith("disc(event")]
+                        muts.append((c, g))
+            for i, j, p, rv, line in b.assigns():
+                if p[1] and p[1][0] == "*" and b.root_name(b.resolve(p)) == "state" and b.resolve(p).fields:
+                    muts.append((None, [str(line)]))
+            writes = [(c, g) for c, g in muts if c is None or "Write" in g]
+            r.check(not writes, "client-%s/run_io/state-mutated-only-by-notifications" % nm, where(b), "no state mutation in the local-write arm of the IO loop",
+                    "the IO loop applies a local command to the downlink state (%s) before the lane has echoed it: callbacks for the next notification report the un-echoed local value as the previous value, and the state is no longer the fold of what was received" % ", ".join(sorted({c.name for c, g in writes if c is not None})))
+
+
     with ctx.rule("C08.R2b", "T1", "callbacks that receive the map see it whole: survivors of a Take/Drop are restored before the removals are reported", floor=2) as r:
         oe = ctx.saw(dl.fn(suffix="task::map::on_event::{closure#0}"))
         for var in ("Take", "Drop"):
